@@ -130,11 +130,11 @@ class Check:
             if res.status == "undecided":
                 self.undecided.append("%s: %s" % (name, res.reason))
                 continue
-            if h.canary and res.canary is False:
-                self.undecided.append("%s: vacuity guard: the canary assert(0) behind the call under contract was not "
-                                      "reached (canary run: %s)" % (name, getattr(res, "canary_status", "?")))
-                continue
             if res.status == "proved":
+                # a pass only counts when the code behind the call under contract is reachable
+                if h.canary and res.canary is False:
+                    self.undecided.append("%s: vacuity guard: the canary assert(0) behind the call under contract was not "
+                                          "reached (canary run: %s)" % (name, getattr(res, "canary_status", "?")))
                 continue
             seen = set()
             for o in res.failed:
